@@ -853,6 +853,318 @@ Proof.
 Qed.
 
 (* =====================================================================
+   4b. Lexical scoping: for a well-scoped declaration the interpreter's single persistent
+       environment is unobservable - the run equals the lexically scoped run [run_lex]
+   ===================================================================== *)
+Definition same_on (s : list string) (a b : env) : Prop := forall x, In x s -> lookup a x = lookup b x.
+
+Lemma same_on_sub s s' a b : (forall x, In x s' -> In x s) -> same_on s a b -> same_on s' a b.
+Proof. intros Hs H x Hx. apply H. apply Hs. exact Hx. Qed.
+
+Lemma same_on_app s1 s2 a b : same_on (s1 ++ s2) a b -> same_on s1 a b /\ same_on s2 a b.
+Proof. intros H. split; intros x Hx; apply H; apply in_or_app; auto. Qed.
+
+Lemma eval_atom_same a e1 e2 : same_on (atom_fv a) e1 e2 -> eval_atom e1 a = eval_atom e2 a.
+Proof. destruct a as [x|z]; cbn; intros H; [rewrite (H x (or_introl eq_refl))|]; reflexivity. Qed.
+
+Lemma eval_items_same : forall items e1 e2,
+  same_on (flat_map atom_fv items) e1 e2 -> eval_items e1 items = eval_items e2 items.
+Proof.
+  induction items as [|a r IH]; intros e1 e2 H; cbn; [reflexivity|].
+  cbn in H. apply same_on_app in H as [Ha Hr]. rewrite (eval_atom_same a e1 e2 Ha), (IH e1 e2 Hr). reflexivity.
+Qed.
+
+Lemma eval_same : forall x e1 e2, same_on (expr_fv x) e1 e2 -> eval e1 x = eval e2 x.
+Proof.
+  induction x as [a|a IHa b IHb|a IHa b IHb|a IHa b IHb|items]; intros e1 e2 H; cbn in *.
+  - apply eval_atom_same. exact H.
+  - apply same_on_app in H as [H1 H2]. rewrite (IHa _ _ H1), (IHb _ _ H2). reflexivity.
+  - apply same_on_app in H as [H1 H2]. rewrite (IHa _ _ H1), (IHb _ _ H2). reflexivity.
+  - apply same_on_app in H as [H1 H2]. rewrite (IHa _ _ H1), (IHb _ _ H2). reflexivity.
+  - rewrite (eval_items_same items e1 e2 H). reflexivity.
+Qed.
+
+Lemma eval_list_same : forall xs e1 e2, same_on (flat_map expr_fv xs) e1 e2 -> eval_list e1 xs = eval_list e2 xs.
+Proof.
+  induction xs as [|x r IH]; intros e1 e2 H; cbn; [reflexivity|].
+  cbn in H. apply same_on_app in H as [Hx Hr]. rewrite (eval_same x e1 e2 Hx), (IH e1 e2 Hr). reflexivity.
+Qed.
+
+Lemma eval_guard_same : forall g e1 e2, same_on (guard_fv g) e1 e2 -> eval_guard e1 g = eval_guard e2 g.
+Proof.
+  induction g as [|c a b|g IHg h IHh|g IHg h IHh|g IHg]; intros e1 e2 H; cbn in *.
+  - reflexivity.
+  - apply same_on_app in H as [H1 H2]. rewrite (eval_same a _ _ H1), (eval_same b _ _ H2). reflexivity.
+  - apply same_on_app in H as [H1 H2]. rewrite (IHg _ _ H1), (IHh _ _ H2). reflexivity.
+  - apply same_on_app in H as [H1 H2]. rewrite (IHg _ _ H1), (IHh _ _ H2). reflexivity.
+  - rewrite (IHg _ _ H). reflexivity.
+Qed.
+
+(* matching on two environments that agree on a set containing the pattern's variables *)
+Definition opt_same (s : list string) (a b : option env) : Prop :=
+  match a, b with
+  | None, None => True
+  | Some a', Some b' => same_on s a' b'
+  | _, _ => False
+  end.
+
+Lemma bind_var_same s a b x v : same_on s a b -> In x s -> opt_same s (bind_var a x v) (bind_var b x v).
+Proof.
+  intros H Hx. unfold bind_var. rewrite <- (H x Hx). destruct (lookup a x) as [v'|].
+  - destruct (value_eqb v' v); cbn; [exact H|exact I].
+  - cbn. intros y Hy. cbn. rewrite (H y Hy). reflexivity.
+Qed.
+
+Lemma match_ipats_same s : forall ps a b zs,
+  same_on s a b -> (forall x, In x (flat_map ipat_vars ps) -> In x s) ->
+  opt_same s (match_ipats a ps zs) (match_ipats b ps zs).
+Proof.
+  induction ps as [|p r IH]; intros a b zs H Hs; cbn.
+  - exact H.
+  - destruct zs as [|z zs]; [exact I|].
+    assert (H1 : opt_same s (match_ipat a p z) (match_ipat b p z)).
+    { destruct p as [x|n]; cbn.
+      - apply bind_var_same; [exact H|]. apply Hs. cbn. left. reflexivity.
+      - destruct (Z.eqb n z); cbn; [exact H|exact I]. }
+    destruct (match_ipat a p z) as [a1|], (match_ipat b p z) as [b1|]; cbn in H1; try contradiction; [|exact I].
+    apply IH; [exact H1|]. intros x Hx. apply Hs. cbn. apply in_or_app. right. exact Hx.
+Qed.
+
+Lemma match_pat_same s a b p v :
+  same_on s a b -> (forall x, In x (pat_vars p) -> In x s) ->
+  opt_same s (match_pat a p v) (match_pat b p v).
+Proof.
+  intros H Hs. destruct p as [x|n| |pre sp suf].
+  - assert (Hb : opt_same s (bind_var a x v) (bind_var b x v)) by (apply bind_var_same; [exact H|apply Hs; left; reflexivity]).
+    destruct v; exact Hb.
+  - destruct v as [z|l]; cbn; [|exact I]. destruct (Z.eqb n z); cbn; [exact H|exact I].
+  - destruct v; exact H.
+  - destruct v as [z|l]; [exact I|]. cbn [match_pat].
+    destruct (Nat.ltb _ _); [exact I|].
+    assert (H1 : opt_same s (match_ipats a pre l) (match_ipats b pre l)).
+    { apply match_ipats_same; [exact H|]. intros x Hx. apply Hs. cbn. apply in_or_app. left. exact Hx. }
+    destruct (match_ipats a pre l) as [a1|], (match_ipats b pre l) as [b1|]; cbn in H1; try contradiction; [|exact I].
+    set (tl := skipn (List.length l - List.length suf) l).
+    assert (H2 : opt_same s (match_ipats a1 suf tl) (match_ipats b1 suf tl)).
+    { apply match_ipats_same; [exact H1|]. intros x Hx. apply Hs. cbn. apply in_or_app. right. apply in_or_app. right. exact Hx. }
+    destruct (match_ipats a1 suf tl) as [a2|], (match_ipats b1 suf tl) as [b2|]; cbn in H2; try contradiction; [|exact I].
+    destruct sp as [| |x].
+    + destruct (Nat.eqb _ _); cbn; [exact H2|exact I].
+    + exact H2.
+    + apply bind_var_same; [exact H2|]. apply Hs. cbn. apply in_or_app. right. left. reflexivity.
+Qed.
+
+Lemma match_pats_same s : forall ps a b vs,
+  same_on s a b -> (forall x, In x (flat_map pat_vars ps) -> In x s) ->
+  opt_same s (match_pats a ps vs) (match_pats b ps vs).
+Proof.
+  induction ps as [|p r IH]; intros a b vs H Hs; cbn.
+  - destruct vs; [exact H|exact I].
+  - destruct vs as [|v vs]; [exact I|].
+    assert (H1 : opt_same s (match_pat a p v) (match_pat b p v)).
+    { apply match_pat_same; [exact H|]. intros x Hx. apply Hs. cbn. apply in_or_app. left. exact Hx. }
+    destruct (match_pat a p v) as [a1|], (match_pat b p v) as [b1|]; cbn in H1; try contradiction; [|exact I].
+    apply IH; [exact H1|]. intros x Hx. apply Hs. cbn. apply in_or_app. right. exact Hx.
+Qed.
+
+Lemma lookup_remove_all_in (e : env) xs x : In x xs -> lookup (remove_all xs e) x = None.
+Proof.
+  intros Hx. induction e as [|[y v] r IH]; cbn; [reflexivity|].
+  destruct (memb y xs) eqn:Em; cbn; [exact IH|].
+  destruct (String.eqb x y) eqn:E; [|exact IH].
+  apply String.eqb_eq in E. subst. apply memb_In in Hx. congruence.
+Qed.
+
+Lemma lookup_remove_all_notin (e : env) xs x : ~ In x xs -> lookup (remove_all xs e) x = lookup e x.
+Proof.
+  intros Hx. induction e as [|[y v] r IH]; cbn; [reflexivity|].
+  destruct (memb y xs) eqn:Em; cbn.
+  - destruct (String.eqb x y) eqn:E; [|exact IH].
+    apply String.eqb_eq in E. subst. apply memb_In in Em. contradiction.
+  - destruct (String.eqb x y); [reflexivity|exact IH].
+Qed.
+
+(* the two environments an arm is tried in agree on the arm's variables and on the free inputs *)
+Lemma match_arm_same u e e0 st a :
+  same_on u e e0 -> (forall x, In x u -> ~ In x (arm_pat_vars a)) ->
+  opt_same (arm_pat_vars a ++ u) (match_arm e st a) (match_arm e0 st a).
+Proof.
+  intros H Hd. unfold match_arm. destruct (andb _ _); [|exact I].
+  apply match_pats_same.
+  - intros x Hx. apply in_app_or in Hx as [Hx|Hx].
+    + fold (arm_pat_vars a). rewrite !lookup_remove_all_in by exact Hx. reflexivity.
+    + fold (arm_pat_vars a). rewrite !lookup_remove_all_notin by (apply Hd; exact Hx). apply H. exact Hx.
+  - intros x Hx. apply in_or_app. left. exact Hx.
+Qed.
+
+(* matching binds nothing but the pattern's variables *)
+Lemma bind_var_frame e x v e' y : bind_var e x v = Some e' -> y <> x -> lookup e' y = lookup e y.
+Proof.
+  unfold bind_var. destruct (lookup e x) as [v'|].
+  - destruct (value_eqb v' v); [|discriminate]. intros H. inversion H. reflexivity.
+  - intros H Hne. inversion H; subst. cbn. destruct (String.eqb y x) eqn:E; [|reflexivity].
+    apply String.eqb_eq in E. contradiction.
+Qed.
+
+Lemma match_ipats_frame : forall ps e zs e' y,
+  match_ipats e ps zs = Some e' -> ~ In y (flat_map ipat_vars ps) -> lookup e' y = lookup e y.
+Proof.
+  induction ps as [|p r IH]; intros e zs e' y H Hy; cbn in H.
+  - inversion H. reflexivity.
+  - destruct zs as [|z zs]; [discriminate|].
+    destruct (match_ipat e p z) as [e1|] eqn:E1; [|discriminate].
+    rewrite (IH _ _ _ _ H) by (intros Hi; apply Hy; cbn; apply in_or_app; right; exact Hi).
+    destruct p as [x|n]; cbn in E1.
+    + eapply bind_var_frame; [exact E1|]. intros ->. apply Hy. cbn. left. reflexivity.
+    + destruct (Z.eqb n z); [|discriminate]. inversion E1. reflexivity.
+Qed.
+
+Lemma match_pat_frame e p v e' y :
+  match_pat e p v = Some e' -> ~ In y (pat_vars p) -> lookup e' y = lookup e y.
+Proof.
+  intros H Hy. destruct p as [x|n| |pre sp suf].
+  - assert (Hb : bind_var e x v = Some e') by (destruct v; exact H).
+    eapply bind_var_frame; [exact Hb|]. intros ->. apply Hy. left. reflexivity.
+  - destruct v as [z|l]; cbn in H; [|discriminate]. destruct (Z.eqb n z); [|discriminate]. inversion H. reflexivity.
+  - assert (e' = e) by (destruct v; cbn in H; congruence). subst. reflexivity.
+  - destruct v as [z|l]; [discriminate|]. cbn [match_pat] in H. cbn in Hy.
+    destruct (Nat.ltb _ _); [discriminate|].
+    destruct (match_ipats e pre l) as [e1|] eqn:E1; [|discriminate].
+    destruct (match_ipats e1 suf _) as [e2|] eqn:E2; [|discriminate].
+    assert (H12 : lookup e2 y = lookup e y).
+    { rewrite (match_ipats_frame _ _ _ _ _ E2) by (intros Hi; apply Hy; apply in_or_app; right; apply in_or_app; right; exact Hi).
+      apply (match_ipats_frame _ _ _ _ _ E1). intros Hi. apply Hy. apply in_or_app. left. exact Hi. }
+    destruct sp as [| |x].
+    + destruct (Nat.eqb _ _); [|discriminate]. inversion H; subst. exact H12.
+    + inversion H; subst. exact H12.
+    + rewrite (bind_var_frame _ _ _ _ y H); [exact H12|].
+      intros ->. apply Hy. apply in_or_app. right. left. reflexivity.
+Qed.
+
+Lemma match_pats_frame : forall ps e vs e' y,
+  match_pats e ps vs = Some e' -> ~ In y (flat_map pat_vars ps) -> lookup e' y = lookup e y.
+Proof.
+  induction ps as [|p r IH]; intros e vs e' y H Hy; cbn in H.
+  - destruct vs; [|discriminate]. inversion H. reflexivity.
+  - destruct vs as [|v vs]; [discriminate|].
+    destruct (match_pat e p v) as [e1|] eqn:E1; [|discriminate].
+    rewrite (IH _ _ _ _ H) by (intros Hi; apply Hy; cbn; apply in_or_app; right; exact Hi).
+    apply (match_pat_frame _ _ _ _ _ E1). intros Hi. apply Hy. cbn. apply in_or_app. left. exact Hi.
+Qed.
+
+Lemma match_arm_frame e st a e' y :
+  match_arm e st a = Some e' -> ~ In y (arm_pat_vars a) -> lookup e' y = lookup e y.
+Proof.
+  unfold match_arm. destruct (andb _ _); [|discriminate]. intros H Hy.
+  rewrite (match_pats_frame _ _ _ _ _ H Hy). apply lookup_remove_all_notin. exact Hy.
+Qed.
+
+Lemma fv_ok_sub a u fv : fv_ok a u fv = true -> forall x, In x fv -> In x (arm_pat_vars a ++ u).
+Proof.
+  unfold fv_ok. rewrite forallb_forall. intros H x Hx. specialize (H x Hx).
+  apply orb_true_iff in H as [H|H]; apply memb_In in H; apply in_or_app; auto.
+Qed.
+
+Lemma first_guard_same a u e1 e2 : forall gs j,
+  same_on (arm_pat_vars a ++ u) e1 e2 ->
+  forallb (fun gt => andb (fv_ok a u (guard_fv (fst gt))) (fv_ok a u (target_fv (snd gt)))) gs = true ->
+  first_guard e1 gs j = first_guard e2 gs j.
+Proof.
+  induction gs as [|[g t] r IH]; intros j H Hok; cbn; [reflexivity|].
+  cbn in Hok. apply andb_prop in Hok as [Hg Hr]. apply andb_prop in Hg as [Hg _].
+  rewrite (eval_guard_same g e1 e2) by (eapply same_on_sub; [apply fv_ok_sub; exact Hg|exact H]).
+  destruct (eval_guard e2 g) as [[|]|]; try reflexivity. apply IH; assumption.
+Qed.
+
+(* the result of choosing a transition is the same up to the environment, which agrees on everything
+   the chosen target can mention and on the free inputs *)
+Definition sel_same (u : list string) (s1 s2 : sel) : Prop :=
+  match s1, s2 with
+  | SelNone, SelNone => True
+  | SelErr, SelErr => True
+  | Sel i g a t, Sel i' g' b t' => i = i' /\ g = g' /\ t = t' /\ same_on (target_fv t) a b
+  | _, _ => False
+  end.
+
+Lemma select_same u e e0 st : forall arms i,
+  same_on u e e0 ->
+  (forall a x, In a arms -> In x u -> ~ In x (arm_pat_vars a)) ->
+  forallb (arm_scoped u) arms = true ->
+  sel_same u (select e st arms i) (select e0 st arms i).
+Proof.
+  induction arms as [|a r IH]; intros i H Hd Hsc; cbn [select]; [exact I|].
+  cbn in Hsc. apply andb_prop in Hsc as [Ha Hr].
+  assert (IHr : forall j, sel_same u (select e st r j) (select e0 st r j)).
+  { intros j. apply IH; [exact H| |exact Hr]. intros b x Hb. apply Hd. right. exact Hb. }
+  pose proof (match_arm_same u e e0 st a H (fun x => Hd a x (or_introl eq_refl))) as Hm.
+  destruct (match_arm e st a) as [a1|], (match_arm e0 st a) as [b1|]; cbn in Hm; try contradiction; [|apply IHr].
+  unfold arm_scoped in Ha. destruct (a_body a) as [t|gs].
+  - cbn. repeat split; try reflexivity. eapply same_on_sub; [apply fv_ok_sub; exact Ha|exact Hm].
+  - rewrite (first_guard_same a u a1 b1 gs 0 Hm Ha).
+    destruct (first_guard b1 gs 0) as [[[j t]|]|] eqn:Eg; [|apply IHr|exact I].
+    cbn. repeat split; try reflexivity.
+    assert (Hin : exists g, In (g, t) gs).
+    { clear - Eg. revert Eg. generalize 0. induction gs as [|[g0 t0] r IH]; intros n Eg; cbn in Eg; [discriminate|].
+      destruct (eval_guard b1 g0) as [[|]|]; try discriminate.
+      - inversion Eg; subst. exists g0. left. reflexivity.
+      - destruct (IH _ Eg) as [g Hg]. exists g. right. exact Hg. }
+    destruct Hin as [g Hin]. rewrite forallb_forall in Ha. specialize (Ha _ Hin). cbn in Ha.
+    apply andb_prop in Ha as [_ Ht]. eapply same_on_sub; [apply fv_ok_sub; exact Ht|exact Hm].
+Qed.
+
+(* after the chosen arm fired, the persistent environment still agrees with the inputs' on the free inputs *)
+Lemma select_env_frame e st : forall arms n i g e' t y,
+  select e st arms n = Sel i g e' t -> (forall a, In a arms -> ~ In y (arm_pat_vars a)) -> lookup e' y = lookup e y.
+Proof.
+  induction arms as [|a r IH]; intros n i g e' t y H Hy; cbn [select] in H; [discriminate|].
+  assert (IHr : forall m, select e st r m = Sel i g e' t -> lookup e' y = lookup e y).
+  { intros m Hm. eapply IH; [exact Hm|]. intros b Hb. apply Hy. right. exact Hb. }
+  destruct (match_arm e st a) as [e1|] eqn:Em; [|eapply IHr; exact H].
+  destruct (a_body a) as [t1|gs].
+  - inversion H; subst. eapply match_arm_frame; [exact Em|]. apply Hy. left. reflexivity.
+  - destruct (first_guard e1 gs 0) as [[[j t1]|]|]; [|eapply IHr; exact H|discriminate].
+    inversion H; subst. eapply match_arm_frame; [exact Em|]. apply Hy. left. reflexivity.
+Qed.
+
+Theorem run_lexical u arms :
+  (forall a x, In a arms -> In x u -> ~ In x (arm_pat_vars a)) ->
+  forallb (arm_scoped u) arms = true ->
+  forall n e e0 st, same_on u e e0 -> run arms n e st = run_lex arms n e0 st.
+Proof.
+  intros Hd Hsc. induction n as [|n IH]; intros e e0 st H; cbn [run run_lex]; [reflexivity|].
+  pose proof (select_same u e e0 st arms 0 H Hd Hsc) as Hs.
+  destruct (select e st arms 0) as [| |i g a t] eqn:E1, (select e0 st arms 0) as [| |i' g' b t'] eqn:E2;
+    cbn in Hs; try contradiction; try reflexivity.
+  destruct Hs as (-> & -> & -> & Ht).
+  destruct t' as [s xs|x]; cbn in Ht.
+  - rewrite (eval_list_same xs a b Ht). destruct (eval_list b xs) as [vs|]; [|reflexivity].
+    rewrite (IH a e0 (s, vs)); [reflexivity|].
+    intros y Hy. rewrite <- (H y Hy). eapply select_env_frame; [exact E1|].
+    intros a0 Ha0. apply (Hd a0 y Ha0 Hy).
+  - rewrite (eval_same x a b Ht). reflexivity.
+Qed.
+
+Lemma free_inputs_disjoint inputs arms a x :
+  In a arms -> In x (free_inputs inputs arms) -> ~ In x (arm_pat_vars a).
+Proof.
+  unfold free_inputs. intros Ha Hx Hp. apply filter_In in Hx as [_ Hx]. apply negb_true_iff in Hx.
+  assert (Hm : memb x (flat_map arm_pat_vars arms) = true).
+  { apply memb_In. apply in_flat_map. exists a. auto. }
+  congruence.
+Qed.
+
+(* the lexical-scoping theorem at the level of a declaration *)
+Theorem lexical_scoping d :
+  well_scoped d = true ->
+  forall n e0 st, run (d_arms d) n e0 st = run_lex (d_arms d) n e0 st.
+Proof.
+  intros Hws n e0 st. eapply run_lexical with (u := free_inputs (map fst (d_inputs d)) (d_arms d)).
+  - intros a x Ha Hx. eapply free_inputs_disjoint; eassumption.
+  - exact Hws.
+  - intros x _. reflexivity.
+Qed.
+
+(* =====================================================================
    5. The judge: an `ok` verdict transports the property to the observation
    ===================================================================== *)
 (* how the trace facility shows a run: state names, scalar payloads exactly, vectors by shape,
@@ -896,10 +1208,10 @@ Definition C17_spec (c : case) (ob : fobs) : Prop :=
   (* ill-formed declaration or wrong arguments: an error, and no state was visited *)
   ((ill_formed d = true \/ args_wrong d (c_args c) = true) /\ is_err (o_res ob) = true /\ o_trace ob = [])
   \/
-  (* accepted: the observed state sequence is the run the declaration determines, and it ends
+  (* accepted (well-formed, well-scoped): the observed state sequence is the run the declaration determines, and it ends
      with the value of the output arm (of the declared kind) or with the limit error *)
   (exists vals vs tr o,
-      args_wrong d (c_args c) = false /\ ill_formed d = false /\
+      args_wrong d (c_args c) = false /\ ill_formed d = false /\ well_scoped d = true /\
       map_opt arg_value (c_args c) = Some vals /\
       eval_list (bind_inputs [] (map fst (d_inputs d)) vals) (snd (d_start d)) = Ok vs /\
       Run (d_arms d) (c_max c) (bind_inputs [] (map fst (d_inputs d)) vals) (fst (d_start d), vs) tr o /\
@@ -946,13 +1258,16 @@ Proof.
     + pose proof (run_fsm_accepted _ _ _ _ _ Er) as (vals & vs & Haw & Hval & Hv & He & Hr).
       destruct o as [v| |st|]; try discriminate.
       * destruct (run_matchb tr (ODone v) ob) eqn:Em; [|discriminate].
+        destruct (negb (well_scoped (c_decl c))) eqn:Ews; [discriminate|]. apply negb_false_iff in Ews.
         destruct (value_has_out (c_decl c) v) eqn:Eo; [|discriminate]. intros _. right.
         unfold run_matchb in Em. apply andb_prop in Em as [Et Ev].
         exists vals, vs, tr, (ODone v). repeat (split; [assumption|]).
         split; [apply trace_matchb_abs; exact Et|]. left. exists v. split; [reflexivity|].
         split; [symmetry; apply sx_eqb_eq; exact Ev|exact Eo].
       * destruct (run_matchb tr OStuck ob); discriminate.
-      * destruct (run_matchb tr (OLimit st) ob) eqn:Em; [|discriminate]. intros _. right.
+      * destruct (run_matchb tr (OLimit st) ob) eqn:Em; [|discriminate].
+        destruct (negb (well_scoped (c_decl c))) eqn:Ews; [discriminate|]. apply negb_false_iff in Ews.
+        intros _. right.
         unfold run_matchb in Em. apply andb_prop in Em as [Et Ev]. apply andb_prop in Ev as [Ev _].
         exists vals, vs, tr, (OLimit st). repeat (split; [assumption|]).
         split; [apply trace_matchb_abs; exact Et|]. right. exists st. split; [reflexivity|].
@@ -976,9 +1291,9 @@ Proof.
       split; [reflexivity|]. split; [|eauto].
       apply run_fsm_accepted in Er as (vals & vs & _ & Hval & _). apply ill_formed_accepted_is_kf; assumption.
     + destruct o as [v| |st|]; try discriminate.
-      * destruct (run_matchb _ _ ob); [destruct (value_has_out _ _)|]; discriminate.
+      * destruct (run_matchb _ _ ob); [destruct (negb _); [|destruct (value_has_out _ _)]|]; discriminate.
       * destruct (run_matchb _ _ ob); discriminate.
-      * destruct (run_matchb _ _ ob); discriminate.
+      * destruct (run_matchb _ _ ob); [destruct (negb _)|]; discriminate.
 Qed.
 
 (* =====================================================================
@@ -1079,6 +1394,22 @@ Lemma rejected_examples :
   run_fsm 40 vsum [AS "u64" 3] = RReject RjArgKind /\
   run_fsm 40 counter [] = RReject RjArgCount.
 Proof. repeat split; vm_compute; reflexivity. Qed.
+
+(* the interpreter's persistent environment is observable only by ill-scoped arms: here arm :A rebinds
+   the input m, and arm :B then sees that binding (result 3) instead of the input (lexical reading: 12) *)
+Definition leak : decl :=
+  Decl [("n", Some (KS "u64")); ("m", Some (KS "u64"))] (Some (KS "u64"))
+       (Some [("A", [KS "u64"]); ("B", [KS "u64"]); ("Done", [KS "u64"])])
+       ("A", [V "n"])
+       [ Arm "A" [PVar "m"] (BT (TNext "B" [EAdd (V "m") (L 1)]));
+         Arm "B" [PVar "k"] (BT (TNext "Done" [EAdd (V "k") (V "m")]));
+         Arm "Done" [PVar "o"] (BT (TOut (V "o"))) ].
+
+Lemma leak_example :
+  well_scoped counter = true /\ well_scoped vsum = true /\ well_scoped leak = false /\
+  (exists tr, run_fsm 40 leak [AS "u64" 1; AS "u64" 10] = RRun tr (ODone (VNum 3))) /\
+  snd (run_lex (d_arms leak) 40 [("m", VNum 10); ("n", VNum 1)] ("A", [VNum 1])) = ODone (VNum 12).
+Proof. repeat split; try (eexists; vm_compute; reflexivity); vm_compute; reflexivity. Qed.
 
 (* a machine that never terminates: for EVERY limit it is stopped with the limit error after
    exactly that many iterations *)
